@@ -196,15 +196,15 @@ Proof.
 Qed.
 
 Lemma st_Rem_ans hooks s id now :
-  HInv hooks s -> is_var id = false ->
+  HInv hooks s ->
   snd (st_Rem s id now) = if hooks && negb (had_fact s id) then Err "notfound" else Ok (had_fact s id).
 Proof.
-  intros HI Hid. pose proof HI as (Hf & Hh & Hwf & _ & Hp & _).
+  intros HI. pose proof HI as (Hf & Hh & Hwf & _ & Hp & _).
   rewrite (st_Rem_unfold s id now (HInv_noexp hooks s now HI) Hp). rewrite Hh.
   destruct (hooks && negb (had_fact s id)); [reflexivity|]. cbn [snd].
   destruct (st_rem_ok_nofail s id now Hf) as (had & Hhad).
   destruct (st_rem s id now) as [s1 o] eqn:Er. cbn [snd] in *. subst o.
-  destruct (st_rem_lists s id now s1 had (HInv_goodk hooks s now HI) Hwf Hid Er) as (-> & _). reflexivity.
+  destruct (st_rem_lists s id now s1 had (HInv_goodk hooks s now HI) Hwf Er) as (-> & _). reflexivity.
 Qed.
 
 Lemma sstep_ans_fun hooks s u o :
@@ -215,8 +215,7 @@ Proof.
   intros HS HU HF Hpl Hix Hnk. destruct o as [[g x fr aux|j|j|p|ev|] now]; cbn [sstep_ans]; try reflexivity.
   - rewrite (st_add_ans hooks s g x now fr aux HS Hpl Hix), (st_add_ans hooks u g x now fr aux HU Hpl Hix). reflexivity.
   - cbn [op_plain op_nokey] in *. apply andb_true_iff in Hnk. destruct Hnk as [H1 _]. apply Bool.negb_true_iff in H1.
-    apply Bool.negb_true_iff in Hpl.
-    rewrite (st_Rem_ans hooks s j now HS Hpl), (st_Rem_ans hooks u j now HU Hpl).
+    rewrite (st_Rem_ans hooks s j now HS), (st_Rem_ans hooks u j now HU).
     unfold had_fact. rewrite HF, nokey_lookup, H1. reflexivity.
   - cbn [op_nokey] in Hnk. apply Bool.negb_true_iff in Hnk.
     rewrite !LocBasics.st_get_snd. rewrite HF, nokey_lookup, Hnk. reflexivity.
